@@ -1,7 +1,7 @@
 """Per-property checks.  Each takes a Ctx (harness built from the working tree, tables exported,
 spec copied into the scratch directory) and returns the exit code."""
 import glob, json, os, random, shutil, subprocess, sys, tempfile
-from .core import Ctx, Infra, finish, log, VERIF, REPO, TLA_CP, GOENV, NCPU
+from .core import Ctx, Infra, finish, log, sessions, VERIF, REPO, TLA_CP, GOENV, NCPU
 
 Q = lambda s: '"%s"' % s  # TLA+ string constant
 
@@ -86,16 +86,41 @@ class Roles:
 
 
 def sameid_roles(roles):
-    """leaves that share ONE license id and differ only in '+', -only and the exception; universe likewise"""
+    """leaves that share ONE license id and differ only in '+' and the exception; the universe holds the id plain, with '+',
+    under two exceptions, and a later version (reached only through '+')"""
     r = roles.rng
     fam = roles.family(2)
     i1 = r.randrange(0, len(fam) - 1)
-    v1 = r.choice(fam[i1])
+    v1 = r.choice([x for x in fam[i1]])
     later = r.choice(fam[r.randrange(i1 + 1, len(fam))])
     e1, e2 = r.sample(roles.t["exceptions"], 2)
     plus = v1 + "+" if not v1.endswith("-or-later") else v1
-    leaves = [v1, v1 + " WITH " + e1, plus, v1 + " WITH " + e2]
-    universe = [v1, v1 + " WITH " + e1, later, v1 + " WITH " + e2, plus + " WITH " + e1]
+    leaves = [v1, v1 + " WITH " + e1, later, v1 + " WITH " + e2]
+    universe = [v1, plus, v1 + " WITH " + e1, v1 + " WITH " + e2, later]
+    return leaves, universe
+
+
+def samestep_roles(roles):
+    """two different ids of one version step (e.g. GPL-2.0 / GPL-2.0-only), a case variant of a listed -or-later id, a later version"""
+    r = roles.rng
+    t = roles.t
+    cands = []
+    for fam in t["ranges"]:
+        for si, st in enumerate(fam[:-1]):
+            ids = [x for x in st if len(roles.pos[x]) == 1 and not x.endswith("-or-later")]
+            if len(ids) >= 2:
+                laters = [y for st2 in fam[si + 1:] for y in st2 if len(roles.pos[y]) == 1 and not y.endswith("-or-later")]
+                if laters:
+                    cands.append((ids, laters))
+    if not cands:
+        return sameid_roles(roles)
+    ids, laters = r.choice(cands)
+    x, y = r.sample(ids, 2)
+    later = r.choice(laters)
+    gnu = [z for z in t["active"] if z.endswith("-or-later") and z[:-9] in (x, y)]
+    ranged = (r.choice(gnu).upper() if gnu else x + "+")
+    leaves = [x, y, ranged, later]
+    universe = [x, y, later, x + "+", r.choice(roles.unranged)]
     return leaves, universe
 
 
@@ -107,6 +132,9 @@ def run_tree(ctx, name, rng, leaves, selection=None):
     if selection == "sameid":
         texts, universe = sameid_roles(roles)
         sel = "same id, different '+' / exception"
+    elif selection == "samestep":
+        texts, universe = samestep_roles(roles)
+        sel = "two ids of one version step, case variant of a listed -or-later id"
     else:
         texts, universe, sel = roles.tree_roles(selection)
     ctx.write_params("MC_Tree_P", {"MaxLeaves": str(leaves), "LeafTexts": tla_seq(texts), "Universe": tla_seq(universe)})
@@ -129,13 +157,16 @@ def tree_family(ctx, relevant, flavor, rule):
         run_tree(ctx, "tree4s", rng, 4)
         ctx.drive("trace", flavor, 1500, leaves=12)
         run_tree(ctx, "tree4-sameid", rng, 4, "sameid")
+        run_tree(ctx, "tree4-samestep", rng, 4, "samestep")
     else:
         run_tree(ctx, "tree4", rng, 4)
         run_tree(ctx, "tree3-sameid", rng, 3, "sameid")
+        run_tree(ctx, "tree3-samestep", rng, 3, "samestep")
         ctx.drive("trace", flavor, 300, leaves=10)
     ctx.validate_trace("trace")
     if ctx.model_violation and not [m for m in ctx.mismatches if m["what"] in relevant]:
         raise Infra("model-level invariant %s failed but the real code agrees with the model's predictions: specification problem" % ctx.model_violation)
+    sessions(ctx)
     return finish(ctx, relevant=relevant, rule=rule)
 
 
@@ -154,6 +185,7 @@ def c07(ctx):
     # monotonicity over all sub-lists: MC_Tree's verdict vectors (model invariant MonoInv + direct check on the observed verdicts)
     run_tree(ctx, "tree", rng, 4 if thorough else 3)
     run_tree(ctx, "tree-sameid", rng, 4 if thorough else 3, "sameid")
+    run_tree(ctx, "tree-samestep", rng, 4 if thorough else 3, "samestep")
     # permutations, duplications, re-spellings
     roles = Roles(ctx, rng)
     texts, universe, sel = roles.tree_roles()
@@ -194,6 +226,7 @@ def c07(ctx):
         raise Infra("model-level invariant %s failed in MC_AllowedSpell (specification problem, not a verdict)" % r["violated"])
     ctx.drive("trace", "sat", 1200 if thorough else 300, leaves=6)
     ctx.validate_trace("trace")
+    sessions(ctx)
     return finish(ctx, relevant={"verdict", "non-monotone", "verdict-depends-on-list-form"},
                   rule="every non-empty sub-list of the allowed universe in every order, with one entry duplicated and one (thorough: two) "
                        "entries re-spelled (case of listed ids, blanks, one/two pairs of parentheses): the model proves the list denotes the "
@@ -207,8 +240,10 @@ def c10(ctx):
     roles = Roles(ctx, rng)
     texts, universe, sel = roles.tree_roles()
     stexts, suniverse = sameid_roles(roles)
+    ttexts, tuniverse = samestep_roles(roles)
     runs = [("rewrite", texts[:3] if not thorough else texts, universe if thorough else universe[:4], "3", sel),
-            ("rewrite-sameid", stexts if thorough else stexts[:3], suniverse if thorough else suniverse[:4], "3" if thorough else "2", "same id, different '+' / exception")]
+            ("rewrite-sameid", stexts if thorough else stexts[:3], suniverse if thorough else suniverse[:4], "3" if thorough else "2", "same id, different '+' / exception"),
+            ("rewrite-samestep", ttexts if thorough else ttexts[:3], tuniverse if thorough else tuniverse[:4], "3" if thorough else "2", "two ids of one step, case variant")]
     for name, tx, uni, start, what in runs:
         ctx.write_params("MC_Tree_P", {"MaxLeaves": "3", "LeafTexts": tla_seq(tx), "Universe": tla_seq(uni)})
         ctx.write_params("MC_Rewrite_P", {"StartLeaves": start, "MaxSteps": "2" if thorough else "1", "MaxSize": "8" if thorough else "7"})
@@ -219,8 +254,10 @@ def c10(ctx):
     ctx.model_violation = None
     run_tree(ctx, "tree", rng, 3 if not thorough else 5)
     run_tree(ctx, "tree-sameid", rng, 3 if not thorough else 4, "sameid")
+    run_tree(ctx, "tree-samestep", rng, 3 if not thorough else 4, "samestep")
     ctx.drive("trace", "sat", 1200 if thorough else 300, leaves=10)
     ctx.validate_trace("trace")
+    sessions(ctx)
     return finish(ctx, relevant={"verdict", "extract-invented", "extract-missing", "extract-duplicate", "extract-error", "non-monotone"},
                   rule="every tree up to 3 leaves x every chain of rewrites (commute, re-associate, idempotence, absorption, distribution both "
                        "ways) applied at any node x 3 renderings (minimal/full parentheses, widened blanks) x all allowed subsets: the real "
@@ -301,7 +338,7 @@ def pair_params(ctx, rng, quick, with_cross=True):
     # (b) every table family and every natural family: full product of members x spellings x exceptions
     fams = [[x for st in fam for x in st if x in ids] for fam in t["ranges"]]
     fams += [v for v in natural_families(ctx).values()]
-    kinds = ["plain", "plus", "only", "orlater"] if quick else ["plain", "plus", "only", "orlater", "lower", "upper", "lowerplus"]
+    kinds = ["plain", "plus", "only", "orlater", "lowerplus"] if quick else ["plain", "plus", "only", "orlater", "lower", "upper", "lowerplus"]
     seen = set()
     for fam in fams:
         key = tuple(sorted(set(fam)))
@@ -353,6 +390,7 @@ def c02(ctx):
         ctx.notes.append("model-level invariants violated on the shipped tables: %s" % viol)
         if set(viol) - {"PlusNatural"} and not [m for m in ctx.mismatches if m["what"] in ("match", "verdict")]:
             raise Infra("model-level invariants %s failed but the real code agrees with the model's predictions" % viol)
+    sessions(ctx)
     return finish(ctx, relevant={"match", "verdict"},
                   rule="ordered pairs of single-term texts built from the shipped tables (every table family and natural family x spellings x "
                        "exceptions, cross pairs of listed ids, LicenseRefs); TLC: operational matcher = C02's rule, symmetry, reflexivity, "
@@ -366,6 +404,7 @@ def c11(ctx):
     r = run_pairs(ctx, "pairs", rng, quick=ctx.tier != "thorough")
     ctx.drive("trace", "single", 1200 if ctx.tier == "thorough" else 300)
     ctx.validate_trace("trace")
+    sessions(ctx)
     return finish(ctx, relevant={"plus-natural-order", "plus-natural-order-duplicate-position", "match-duplicate-position",
                                  "verdict-duplicate-position", "table-Listed", "table-OnePosition", "table-OneShape",
                                  "table-Ascending", "table-Complete", "table-Disjoint"},
@@ -423,8 +462,10 @@ def c08(ctx):
         ids += [x for x in t["deprecated"] if not x.endswith("+") and x not in ids]
     rel = [related_texts(ctx, roles, rng, x, quick) for x in ids]
     e1, e2 = rng.sample(t["exceptions"], 2)
+    gnu = [x for x in t["active"] if x.endswith("-or-later")]
     ctx.write_params("MC_Spell_P", {"Ids": tla_seq(ids), "Related": "<<" + ", ".join(tla_seq(r) for r in rel) + ">>",
-                                    "Exc1": Q(e1), "Exc2": Q(e2), "Plain": Q(rng.choice(roles.unranged))})
+                                    "Exc1": Q(e1), "Exc2": Q(e2), "Plain": Q(rng.choice(roles.unranged)),
+                                    "Gnu": Q(rng.choice(gnu) if gnu else rng.choice(roles.unranged) + "-or-later")})
     ctx.notes.append("spell: %d ids, %d (id, related) states" % (len(ids), sum(len(r) for r in rel)))
     r = ctx.run_tlc("spell", "MC_Spell", "MC_Spell", timeout=3000, extra=["-continue"])
     import re as _re
@@ -436,6 +477,7 @@ def c08(ctx):
     rel_whats = {"not-interchangeable", "validity", "verdict"}
     if viol and not [m for m in ctx.mismatches if m["what"] in rel_whats]:
         raise Infra("model-level invariants %s failed but no disagreement was reproduced on the real code" % viol)
+    sessions(ctx)
     return finish(ctx, relevant=rel_whats,
                   rule="listed ids x {X ~ X-only, X+ ~ X-or-later} x contexts (expression side / allowed side against family members with and "
                        "without '+', none/same/other exception, six syntactic contexts); TLC: the model predicts identical results for both "
@@ -489,6 +531,7 @@ def c09(ctx):
         ctx.notes.append("model-level invariants violated on the shipped tables: %s" % viol)
         if not [m for m in ctx.mismatches if m["what"] in rel]:
             raise Infra("model-level invariants %s failed but no disagreement was reproduced on the real code" % viol)
+    sessions(ctx)
     return finish(ctx, relevant=rel,
                   rule="listed license and exception ids x {lower, upper, alternating} case x {alone, in a 3-term expression, as allowed entry, "
                        "after WITH}; TLC: the scanner model yields the same token for every variant, lists are fold-unique; real code: validity, "
@@ -518,6 +561,8 @@ def lex_vocab(ctx, rng, focus="all"):
         add(rng.choice(dep_fold), "depFold")
     add(plain2 + "-or-later", "unlistedLater", plain2)
     add(unknown, "unknown")
+    if focus != "core":
+        add("Unknown-" + "x1.y2-" * 9 + "z", "unknown")     # an unknown id of 63 bytes
     add("LicenseRef-a", "LR", "a")
     add("DocumentRef-d", "DR", "d")
     for o in [":", "(", ")", "AND", "OR", "WITH"]:
@@ -591,6 +636,60 @@ def run_generator(ctx):
     return out
 
 
+def perturbed_configuration(ctx):
+    """C12 quantifies over 'any future refresh or hand edit': the same obligations on a PERTURBED configuration - a scratch copy of
+    the tree whose JSON is re-ordered (entries moved to the end, a block reversed), regenerated with the tree's own generator."""
+    rng = random.Random(ctx.seed * 31 + 7)
+    g = os.path.join(ctx.scratch, "perturbed")
+    shutil.copytree(ctx.repo, g, ignore=shutil.ignore_patterns(".git"))
+    moved = {}
+    for fname, key in (("licenses.json", "licenses"), ("exceptions.json", "exceptions")):
+        path = os.path.join(g, "cmd", fname)
+        with open(path) as fh:
+            data = json.load(fh)
+        items = data[key]
+        idk = "licenseId" if key == "licenses" else "licenseExceptionId"
+        live = [i for i, x in enumerate(items) if not x.get("isDeprecatedLicenseId")]
+        picks = sorted(rng.sample(live, 3), reverse=True)
+        tail = [items.pop(i) for i in picks]
+        lo = rng.randrange(0, len(items) - 30)
+        items[lo:lo + 25] = reversed(items[lo:lo + 25])
+        items.extend(tail)
+        moved[key] = [x[idk] for x in tail]
+        with open(path, "w") as fh:
+            json.dump(data, fh)
+    p = subprocess.run(["go", "run", ".", "extract", "-l", "-e"], cwd=os.path.join(g, "cmd"), env=GOENV, capture_output=True, text=True, timeout=600)
+    if p.returncode != 0:
+        raise Infra("generator run on the perturbed configuration failed: " + p.stdout[-1000:] + p.stderr[-1000:])
+    sub = Ctx(ctx.prop, ctx.tier, ctx.seed, repo=g)
+    sub.build()
+    sub.export()
+    for f in ("licenses.json", "exceptions.json"):
+        shutil.copy(os.path.join(g, "cmd", f), sub.spec)
+    files = {}
+    for key, f in (("licenses", "get_licenses.go"), ("deprecated", "get_deprecated.go"), ("exceptions", "get_exceptions.go")):
+        with open(os.path.join(g, "spdxexp", "spdxlicenses", f), encoding="utf-8", errors="replace") as fh:
+            files[key] = fh.read().split("\n")
+    with open(os.path.join(sub.spec, "genfiles.json"), "w") as fh:
+        json.dump(files, fh)
+    pp = pick_plain(sub)
+    with open(os.path.join(sub.spec, "MC_Gen.tla")) as fh:
+        src = fh.read()
+    with open(os.path.join(sub.spec, "MC_Gen.tla"), "w") as fh:
+        fh.write(src.replace('P == "MIT"', 'P == %s' % Q(pp)))
+    r = sub.run_tlc("gen-perturbed", "MC_Gen", "MC_Gen", workers=4, timeout=1800, extra=["-continue"])
+    for m in sub.mismatches:
+        m["source"] = "perturbed configuration (%s moved to the end, a block reversed): %s" % (moved, m.get("source"))
+        m["what"] = m["what"] if m["what"].startswith("table-") else m["what"]
+    ctx.mismatches.extend(sub.mismatches)
+    ctx.states += sub.states
+    ctx.transitions += sub.transitions
+    ctx.replayed += sub.replayed
+    ctx.stages.extend(sub.stages)
+    ctx.notes.append("perturbed configuration: %s" % moved)
+    shutil.rmtree(g, True)
+
+
 def c12(ctx):
     sl = os.path.join(REPO, "spdxexp", "spdxlicenses")
     files = {}
@@ -623,11 +722,13 @@ def c12(ctx):
                                    "observed": {"produced_bytes": None if b is None else len(b), "committed_bytes": len(committed)},
                                    "source": "generator run"})
     ctx.stages.append({"stage": "generator", "kind": "real generator run in a scratch copy, bytes compared", "files": sorted(produced)})
+    perturbed_configuration(ctx)
     rel = {"table-ActiveFromJson", "table-DeprecatedFromJson", "table-ExceptionsFromJson", "table-FilesFromGen", "table-Disjoint",
            "table-FoldUnique", "generator-output-differs", "validity", "validity-disagreement", "invalid-allowed-entry-accepted",
            "allowed-entry", "verdict"}
     if viol and not [m for m in ctx.mismatches if m["what"] in rel]:
         raise Infra("model-level invariant %s failed but nothing was reproduced on real data" % viol)
+    sessions(ctx)
     return finish(ctx, relevant=rel,
                   rule="one TLC state per listed id (the lists read through the real package) + six whole-list clauses against cmd/*.json "
                        "read by TLC and Gen.tla's rendering of the three files; the real generator is run and its bytes compared; every id is "
@@ -745,6 +846,29 @@ def c13(ctx):
         ctx.stages.append({"stage": "race-stress", "kind": "free-running goroutines over shared slices, harness built with -race",
                            "calls": ss["calls"], "goroutines": ss["goroutines"], "race_reported": racy})
     ctx.assumptions.append("gated schedules interleave at stage-hook granularity only; data races are left to the Go race detector on the free-running run")
+    # sessions: an event the specification rejects is a PURITY violation iff the same call, alone in a fresh process, answers differently
+    rejected = sessions(ctx)
+    seen_calls = set()
+    for m in rejected:
+        if m["what"] in ("panic", "mutated", "stage-sequence") or m["fn"] not in ("Satisfies", "ExtractLicenses", "ValidateLicenses"):
+            continue
+        key = json.dumps([m["fn"], m["expr"], m["list"], m.get("rawhex")])
+        if key in seen_calls or len(seen_calls) >= 40:
+            continue
+        seen_calls.add(key)
+        rp = os.path.join(ctx.scratch, "fresh-call.json")
+        with open(rp, "w") as fh:
+            json.dump({"property": ctx.prop, "what": m["what"], "fn": m["fn"], "expr": m["expr"], "list": m["list"], "rawhex": m.get("rawhex") or []}, fh)
+        p3 = subprocess.run([ctx.harness, "run1", "-event", rp, os.path.join(ctx.scratch, "fresh-trace.ndjson")], capture_output=True, text=True, timeout=120)
+        try:
+            fresh = json.loads(p3.stdout.split("observed now:", 1)[1])
+        except (IndexError, ValueError):
+            continue
+        keys = ("sat", "err", "off", "lex", "ok", "bad", "out", "outnil", "panic")
+        if any(fresh.get(k) != m["observed"].get(k) for k in keys):
+            ctx.mismatches.append({"what": "result-depends-on-history", "fn": m["fn"], "expr": m["expr"], "list": m["list"],
+                                   "expected": {k: fresh.get(k) for k in keys}, "observed": m["observed"],
+                                   "source": "sessions: in-session result vs the same call alone in a fresh process"})
     return finish(ctx, relevant={"argument-mutated", "mutated", "result-depends-on-schedule", "result-depends-on-history", "data-race",
                                  "wrote-to-stdout", "hang"},
                   rule="TLC enumerates every interleaving of the stage steps of 2-3 concurrent calls sharing argument slices; each complete "
@@ -757,13 +881,13 @@ def c13(ctx):
 MiB = 1 << 20
 
 
-def measure(ctx, fn, e, a, tries=1):
+def measure(ctx, fn, e, a, tries=1, history=0):
     path = os.path.join(ctx.scratch, "call.json")
     with open(path, "w") as fh:
         json.dump({"fn": fn, "e": e, "a": a}, fh)
     best = None
     for _ in range(tries):
-        p = subprocess.run([ctx.harness, "measure", "-in", path], capture_output=True, text=True, timeout=120,
+        p = subprocess.run([ctx.harness, "measure", "-in", path, "-history", str(history), "-max-time", "60s"], capture_output=True, text=True, timeout=300,
                            env=dict(os.environ, GOGC="100"))
         try:
             r = json.loads(p.stdout.strip().splitlines()[-1])
@@ -795,6 +919,15 @@ def c14(ctx):
         extra["LongUnknownId"].append({"family": "LongUnknownId", "n": n, "e": "x" * n})
         extra["LongRefName"].append({"family": "LongRefName", "n": n, "e": "LicenseRef-" + "a" * n})
         extra["LongBlankRun"].append({"family": "LongBlankRun", "n": n, "e": "LicenseRef-1" + " " * n + "AND LicenseRef-2"})
+    # flat AND chains whose terms carry '+' and sit in multi-version table families (no OR anywhere in the text)
+    t = ctx.tables
+    big = [[x for st in fam for x in st if not x.endswith("-or-later") and not x.endswith("-only")] for fam in t["ranges"] if len(fam) >= 4]
+    ranged = [f[0] + "+" for f in big if f]
+    if ranged:
+        extra["AndChainRanged"] = [{"family": "AndChainRanged", "n": n, "e": " AND ".join(ranged[k % len(ranged)] for k in range(n)),
+                                    "a": [ranged[0][:-1]]} for n in sizes]
+        extra["AndChainRangedDistinct"] = [{"family": "AndChainRangedDistinct", "n": n, "e": " AND ".join(ranged[:n]), "a": [ranged[0][:-1]]}
+                                           for n in range(2, min(len(ranged), 16) + 1, 2)]
     fams.update(extra)
     points, nontrivial = [], 0
     poly_note = {}
@@ -827,6 +960,21 @@ def c14(ctx):
                 seen[c["n"]] = pt
                 if m["aborted"] or m["alloc"] > 256 * MiB:
                     break   # larger members only cost more
+    # cost must be a function of the call's own arguments: the same small calls after many distinct unrelated calls
+    hist_n = 12000 if thorough else 5000
+    for fn, e, a in (("Satisfies", "MiT AND (isc OR LicenseRef-x)", ["MIT", "ISC"]), ("ExtractLicenses", "mIt OR Apache-2.0+", []),
+                     ("ValidateLicenses", "gpl-2.0+ WITH Classpath-exception-2.0", [])):
+        fresh = measure(ctx, fn, e, a, tries=2)
+        after = measure(ctx, fn, e, a, tries=2, history=hist_n)
+        ctx.replayed += 2
+        pt = {"family": "AfterHistory", "fn": fn, "n": hist_n, "bytes_in": len(e), "alloc": after["alloc"], "alloc_fresh": fresh["alloc"],
+              "ms": round(after["ns"] / 1e6, 1), "aborted": after["aborted"]}
+        points.append(pt)
+        nontrivial += 1
+        if after["aborted"] or after["alloc"] > 3 * fresh["alloc"] + 256 * 1024:
+            ctx.mismatches.append({"what": "cost-history", "fn": fn, "family": "AfterHistory", "expr": e, "list": a,
+                                   "expected": "allocation of a call independent of how many unrelated calls came before (<= 3x fresh + 256 KiB)",
+                                   "observed": pt, "source": "measure -history %d" % hist_n})
     for fam, ok in poly_note.items():
         if not ok:
             ctx.notes.append("model: the expansion law of family %s is not bounded by 4*terms^3 (design-level finding by TLC)" % fam)
@@ -835,10 +983,10 @@ def c14(ctx):
     ctx.stages.append({"stage": "measure", "kind": "one watched subprocess per (family, size, function); TotalAlloc delta and wall time", "points": points})
     ctx.exhaustive = False
     ctx.assumptions.append("cost is observed at finitely many sizes; allocation bytes are deterministic, wall time is used only against the 1 s budget with 3 tries")
-    return finish(ctx, relevant={"cost-budget", "cost-growth"}, level="exploration",
+    return finish(ctx, relevant={"cost-budget", "cost-growth", "cost-history"}, level="exploration",
                   rule="input families parameterised by size n (AND/OR chains, nesting, AND of ORs, OR of ANDs, alternating nest, left-nested "
                        "chain: texts and expansion laws from Families.tla, laws checked by TLC against the model's parser for n <= 8; long allowed "
-                       "lists, long ids, long blank runs) x 3 functions; budget rule (<= 512 input bytes: <= 64 MiB, <= 1 s) and growth rule "
+                       "lists, long ids, long blank runs, flat AND chains of ranged terms; the same small calls after thousands of distinct unrelated calls) x 3 functions; budget rule (<= 512 input bytes: <= 64 MiB, <= 1 s) and growth rule "
                        "(alloc(2n)/alloc(n) <= 16); every measured point counts as non-trivial")
 
 
@@ -854,6 +1002,7 @@ def c15(ctx):
         run_lex(ctx, "offsets2", rng, 2, [" "], prefixes=pre)
     ctx.drive("trace", "invalid", 1500 if thorough else 400, leaves=6)
     ctx.validate_trace("trace")
+    sessions(ctx)
     return finish(ctx, relevant={"offset", "lexeme", "offset-no-error"},
                   rule="valid prefixes (with -or-later forms, '+', spaces, parentheses) x every lexeme sequence up to the bound ending in an "
                        "unknown id, a Ref prefix without a name or a foreign byte; the model scanner's caller-relative position and lexeme "
@@ -915,8 +1064,9 @@ def run_lists(ctx, name, rng, maxlist):
     exc = rng.choice(t["exceptions"])
     comp = p1 + " AND " + p2
     # includes two strings that are equal up to letter case but differ in validity (lower-case operator)
+    wexc = p2 + " WITH " + exc
     pool = [p1, p1.lower() if p1.lower() != p1 else p1.upper(), comp, comp.lower(), "(" + p2 + ")", "FOO-bar", p1 + " AND", "(",
-            "", p2 + " WITH " + exc]
+            "", wexc, wexc.lower(), "LicenseRef-Ab", "LICENSEREF-AB"]
     exprs = [p1 + " OR " + p2, p1 + " OR", ""]
     ctx.write_params("MC_Lists_P", {"MaxList": str(maxlist), "Pool": tla_seq(pool), "Exprs": tla_seq(exprs)})
     ctx.notes.append("%s: pool %s, expressions %s, lists up to %d" % (name, pool, exprs, maxlist))
@@ -945,8 +1095,9 @@ def c04(ctx):
     run_mut(ctx, "mut", rng, 3 if thorough else 2)
     ctx.drive("trace", "lists", 1000 if thorough else 300, leaves=5)
     ctx.validate_trace("trace")
+    sessions(ctx)
     return finish(ctx, relevant=C04_WHATS,
-                  rule="every list up to the bound over a 10-string pool as ValidateLicenses argument and as allowed list of three expressions; "
+                  rule="every list up to the bound over a 13-string pool as ValidateLicenses argument and as allowed list of three expressions; "
                        "every lexeme text and token sequence as single argument of all three entry points (agreement on validity, result "
                        "false/nil with every error, exact invalid list); non-trivial = mixed valid/invalid list or valid text")
 
@@ -972,6 +1123,7 @@ def c03(ctx):
     run_extremes(ctx, thorough)
     ctx.drive("trace", "invalid", 2000 if thorough else 500, leaves=8)
     ctx.validate_trace("trace")
+    sessions(ctx)
     return finish(ctx, relevant={"panic"},
                   rule="all token-class sequences, lexeme texts (incl. foreign bytes, truncated Ref prefixes), expression trees x allowed "
                        "subsets and argument lists the model enumerates, each run through all three exported functions under recover(); "
@@ -1002,6 +1154,7 @@ def c05(ctx):
         run_lex(ctx, "lex3", rng, 3, [" "])
     ctx.drive("trace", "invalid", 600 if thorough else 250, leaves=6)
     ctx.validate_trace("trace")
+    sessions(ctx)
     return finish(ctx, relevant={"validity"},
                   rule="every token-class sequence up to the bound (TLC: descent vs reference grammar, scanner round trip; real code: "
                        "ValidateLicenses/ExtractLicenses/Satisfies on 4 renderings of each) + mutated valid expressions trace-validated; "
